@@ -86,7 +86,13 @@ Craft(form) == /\ hist = <<>>
                /\ UNCHANGED <<arch, whole>> /\ Step(form)
 CraftForms == {"SignEmpty", "SignTail", "SignHead", "SignNoMarker"}
 
-Tamper == \/ FlipArchive \/ TruncArchive \/ Rename \/ RenameCase
+\* the archive reached under another name through a symbolic link (the provenance file copied next to
+\* the link): the file name that counts is the one the archive is presented under
+RenameLink    == arch' = [arch EXCEPT !.name = "renamed"] /\ UNCHANGED <<body, sig, whole>> /\ Step("RenameLink")
+\* the same files packed again (other compression): other bytes, still a chart that loads and installs
+Repack        == arch' = [arch EXCEPT !.content = Fresh("repacked")] /\ UNCHANGED <<body, sig, whole>> /\ Step("Repack")
+
+Tamper == \/ FlipArchive \/ TruncArchive \/ Rename \/ RenameCase \/ RenameLink \/ Repack
           \/ \E f \in CraftForms : Craft(f)
           \/ EditBody \/ FixDigest \/ BreakDigest \/ FixName
           \/ SwapSig \/ EditSigPacket \/ TruncProv
@@ -117,6 +123,17 @@ Download(strategy, provOnServer) ==
 
 \* install / upgrade / template / show --verify, the chart given by name with or without --repo
 Locate(verify, repo) == IF verify THEN Download("always", TRUE) ELSE TRUE
+
+\* The command line.  verify / pull --verify / install --verify / upgrade --verify on an existing release /
+\* upgrade --install --verify on a release that does not exist (the install fallback): with --verify every one
+\* of them returns without error only if the chart verifies.
+Commands == <<"verify", "pull", "install", "upgrade", "upgrade-install">>
+CLI(cmd, verify) == IF verify \/ cmd = "verify" THEN Accept ELSE TRUE
+
+\* How the verifying Signatory was built: from the keyring alone, from the keyring and the id of one of
+\* its keys, or from a key file (private key k) and the keyring.  Its own Entity is for signing: the
+\* verdict depends on the keyring only.
+Built(how, own) == Accept
 
 \* helm pull: --verify asks for verification (required), --prov only for the provenance file;
 \* with both, verification is still required
@@ -154,6 +171,7 @@ Inv_Required == /\ \A p \in BOOLEAN : Download("always", p) => Accept
                 /\ \A l \in BOOLEAN : Pull(TRUE, l, TRUE) => Accept
                 /\ \A i \in DOMAIN DepOrders : DepsUpdate("always", DepOrders[i]) => Accept
                 /\ \A r \in BOOLEAN : Locate(TRUE, r) => Accept
+                /\ \A i \in DOMAIN Commands : CLI(Commands[i], TRUE) => Accept
                 /\ \A k \in Keyrings : History(k)[2] = Accept
 
 (* ----- export --------------------------------------------------------------------- *)
@@ -162,9 +180,10 @@ ActNo(a) == CASE a = "FlipArchive" -> 1 [] a = "TruncArchive" -> 2 [] a = "Renam
               [] a = "FixDigest" -> 5 [] a = "BreakDigest" -> 6 [] a = "FixName" -> 7 [] a = "SwapSig" -> 8
               [] a = "EditSigPacket" -> 9 [] a = "TruncProv" -> 10 [] a = "RenameCase" -> 11
               [] a = "SignEmpty" -> 12 [] a = "SignTail" -> 13 [] a = "SignHead" -> 14 [] a = "SignNoMarker" -> 15
+              [] a = "RenameLink" -> 16 [] a = "Repack" -> 17
 RingNo(k) == CASE k = "signer" -> 1 [] k = "both" -> 2 [] k = "others" -> 3 [] k = "empty" -> 4
 RECURSIVE HistNo(_)
-HistNo(h) == IF h = <<>> THEN 0 ELSE ActNo(Head(h)) + 16 * HistNo(Tail(h))
+HistNo(h) == IF h = <<>> THEN 0 ELSE ActNo(Head(h)) + 18 * HistNo(Tail(h))
 CaseNo == RingNo(ring) + 5 * HistNo(hist)
 
 Strategies == <<"never", "ifpossible", "always", "later">>
@@ -180,6 +199,9 @@ Export ==
                  [verify |-> v, later |-> l, withProv |-> Pull(v, l, TRUE), withoutProv |-> Pull(v, l, FALSE)]],
      history |-> LET ks == <<"signer", "both", "others", "empty">> IN
                    [i \in 1..4 |-> [first |-> ks[i], verdicts |-> History(ks[i])]],
+     cli |-> [i \in DOMAIN Commands |-> [cmd |-> Commands[i], verify |-> TRUE, ok |-> CLI(Commands[i], TRUE)]],
+     built |-> LET hows == << <<"keyfile+ring", "signer">>, <<"keyfile+ring", "other">>, <<"ring+id", "signer">>, <<"ring+id", "other">> >> IN
+                 [i \in 1..4 |-> [how |-> hows[i][1], own |-> hows[i][2], ok |-> Built(hows[i][1], hows[i][2])]],
      locate |-> [i \in 1..2 |-> [verify |-> i = 1, repo |-> TRUE, ok |-> Locate(i = 1, TRUE)]],
      deps |-> [i \in DOMAIN DepOrders |-> [order |-> DepOrders[i], strategy |-> "always",
                                            ok |-> DepsUpdate("always", DepOrders[i])]]])
